@@ -23,7 +23,7 @@ from detsim.wsgi_sim import SimInput, WsgiExchange, make_environ
 from models import multipart_codec as mc
 
 PROPERTY = 'C13'
-LEVEL = 'fault_enumeration'
+LEVEL = 'exploration'
 RUNS = {'quick': 12000, 'thorough': 400000}
 SWEEP = True
 SWEEP_CAP = {'quick': 24, 'thorough': 64}
